@@ -240,7 +240,7 @@ def snapshot_vm(vm, stdout="", stderr=""):
     d["halted"] = canon_val(vm.halted)
     d["ers"] = [[plain(x) for x in p] for p in vm.expected_returns]
     d["op_count"] = vm.op_count
-    d["warned_ovf"] = canon_val(vm.warned_for_overflow)
+    d["warned_ovf"] = canon_val(getattr(vm, "warned_for_overflow", None))
     d["warning_count"] = vm.warning_count
     d["swarning_count"] = vm.settings.warning_count
     d["input_buffer"] = vm.input_buffer
